@@ -19,6 +19,14 @@ type Piece struct {
 	Kind  string // ptr, slice, string
 	Path  string
 	Owner int // index of the object the piece belongs to (set by the caller)
+	Bad   string // non-empty: the reference itself is malformed (e.g. a slice whose len exceeds its cap)
+}
+
+func sliceExtent(v reflect.Value) int {
+	if v.Len() > v.Cap() {
+		return v.Len()
+	}
+	return v.Cap()
 }
 
 func (p Piece) End() uintptr { return p.Addr + p.Size }
@@ -39,8 +47,12 @@ func Walk(v reflect.Value, path string, out *[]Piece) {
 			return
 		}
 		et := v.Type().Elem()
-		if v.Cap() > 0 {
-			*out = append(*out, Piece{Ptr: v.UnsafePointer(), Addr: v.Pointer(), Size: uintptr(v.Cap()) * et.Size(), Align: uintptr(et.Align()), Kind: "slice", Path: path})
+		if n := sliceExtent(v); n > 0 {
+			pc := Piece{Ptr: v.UnsafePointer(), Addr: v.Pointer(), Size: uintptr(n) * et.Size(), Align: uintptr(et.Align()), Kind: "slice", Path: path}
+			if v.Cap() < v.Len() {
+				pc.Bad = fmt.Sprintf("slice header with len %d > cap %d", v.Len(), v.Cap())
+			}
+			*out = append(*out, pc)
 		}
 		switch et.Kind() {
 		case reflect.Ptr, reflect.Slice, reflect.String, reflect.Map, reflect.Struct:
@@ -127,9 +139,12 @@ func DropStatic(ps []Piece) []Piece {
 	return out
 }
 
-// CheckAlign returns a description of the first misaligned piece, or "".
+// CheckAlign returns a description of the first misaligned or malformed piece, or "".
 func CheckAlign(ps []Piece) string {
 	for _, p := range ps {
+		if p.Bad != "" {
+			return fmt.Sprintf("%s %s at %#x: %s", p.Kind, p.Path, p.Addr, p.Bad)
+		}
 		if p.Align > 1 && p.Addr%p.Align != 0 {
 			return fmt.Sprintf("%s %s at %#x (size %d) is not aligned to %d", p.Kind, p.Path, p.Addr, p.Size, p.Align)
 		}
